@@ -729,6 +729,9 @@ func (p *Process) onStateChange(state string) {
 	switch state {
 	case types.ProcessStateSkipped:
 		p.setExitCode(1)
+	case types.ProcessStateError:
+		// the command could not be started
+		p.setExitCode(1)
 	case types.ProcessStateRestarting:
 		fallthrough
 	case types.ProcessStateLaunching:
